@@ -26,6 +26,7 @@
 import ICal.Lemmas.Encode
 import ICal.Props.C01
 import ICal.Lemmas.BodiesAdd
+import ICal.Lemmas.BodiesDDDLists
 namespace ICal.C02
 open ICal.Enc
 
@@ -449,5 +450,23 @@ theorem body_component_add (props : List Entry) (name : Str) (a : PyArg) (upd : 
 /-- its "set value" stage alone is the model's `accumulate` -/
 theorem body_component_add_accumulate (props : List Entry) (name : Str) (st : Stored) :
     Bodies.setStage props name (Bodies.storedU st) = .ok (accumulate props (upper name) st) := Bodies.setStage_eq props name st
+
+/-- the regenerated `Component._encode(name, value, parameters, 1)` is the model's `encodeOne`: a value of a value class is
+    kept, the class of the name makes the object otherwise, then every item of `parameters` is applied - None deletes the
+    key, anything else sets it -/
+theorem body_component_encode (name : Str) (v : PyVal) (upd : List (Str × Option PVal)) :
+    (Bodies.encodeOneP name v upd).map Bodies.EncObj.val = Bodies.liftEnc (encodeOne name v upd) := Bodies.encode_eq name v upd
+
+/-- the regenerated `vDDDLists.__init__` on an iterable: every element through `vDDDTypes(..)`, then the model's `listParams`
+    (VALUE when the SET of the elements' VALUEs has one member that is not None; the TZID of the last element that has one,
+    when it is true) -/
+theorem body_vDDDLists_init_many (xs : List PyVal) :
+    Bodies.dddListsInitP (.many xs) = Bodies.liftEnc ((Enc.mapRes mkDDD xs).map (fun vs => (listParams vs, vs))) :=
+  Bodies.ddd_lists_init_many xs
+
+/-- an argument without `__iter__` is wrapped in a list first -/
+theorem body_vDDDLists_init_one (v : PyVal) :
+    Bodies.dddListsInitP (.one v) = Bodies.liftEnc ((Enc.mapRes mkDDD [v]).map (fun vs => (listParams vs, vs))) :=
+  Bodies.ddd_lists_init_one v
 
 end ICal.C02
